@@ -1,1 +1,20 @@
-// harnesses for vk_vsock
+// Child module of vhost::vhost_kern::vsock.  C19 for vhost-vsock.
+use super::*;
+use crate::vhost_kern::verif::*;
+use std::os::unix::io::FromRawFd;
+
+// @harness props=C19 tier=quick reach=off bound="Vsock::set_guest_cid (all u64), start, stop" stubs="vmm_sys_util::ioctl::* (ghost kernel), sysconf"
+k_proof! { fn c19_vsock() {
+    // SAFETY: descriptor number only
+    let v = std::mem::ManuallyDrop::new(Vsock { fd: unsafe { File::from_raw_fd(KFD) }, mem: empty_mem() });
+    let cid: u64 = kani::any();
+    let r = v.set_guest_cid(cid);
+    expect_ioctl(uapi::U_VHOST_VSOCK_SET_GUEST_CID, 8);
+    assert!(a64(0) == cid && r.is_ok()); std::mem::forget(r); reset();
+    let r = v.start();
+    expect_ioctl(uapi::U_VHOST_VSOCK_SET_RUNNING, 4);
+    assert!(a32(0) == 1); std::mem::forget(r); reset();
+    let r = v.stop();
+    expect_ioctl(uapi::U_VHOST_VSOCK_SET_RUNNING, 4);
+    assert!(a32(0) == 0); std::mem::forget(r);
+} }
